@@ -197,3 +197,41 @@ def _(eng):
         assert heap_key(P) == heap_key(S)       # neighbors() does not write links / ends: NB is the same function
         eng.emit(q, "lemma", f"C05/I5/helpers.neighbors/{o.label}", I5_at(P, x0, d0, u0, f0),
                  meta={"clause": "I5 holds after neighbors() (normal or abnormal end)"})
+
+
+# ---------------------------------------------------------------------------------------------- C13: read-only contracts
+OBSERVABLE = ["_links", "_vertices", "_universes", "_uid", "_laws", "_applies_to", "_edge_whitelist", "_mixed_links",
+              "_cycles", "_multipath", "_multiverse", "dyn_has", "dyn_val"]
+C13_READONLY_CONTRACTS = ["helpers.neighbors", "helpers.find_links", "Vertex.links", "Link.vertices", "Universe.vertices",
+                          "BaseObject.universes", "BaseObject.uid", "BaseObject.__getitem__", "TwoEndedLink.v1",
+                          "TwoEndedLink.v2", "TwoEndedLink.other", "Universe.laws", "UniverseLaws.applies_to",
+                          "depthfirst._df_preflight_checks", "Vertex._qa_neighbors_get", "Vertex._qa_neighbors_insert"]
+
+
+def _readonly(op):
+    def fn(eng):
+        """every outcome (normal or exceptional, so also when a user callback raises) of the contract of `op` leaves
+        every observable field of every object unchanged: links, ends, members, universes, laws, uid, attributes"""
+        fi, c, p, args, spec = eng.entry_path(op)
+        S = eng.pre
+        for oi, o in enumerate(spec.outcomes):
+            if not eng.feasible(p, o.cond):
+                continue
+            q = p.copy()
+            q.assume(o.cond)
+            lab = o.label or (("raises-" + str(o.exc)) if o.exc else "normal") + str(oi)
+            loose = {l.fieldname for l in o.loose}
+            for f in OBSERVABLE:
+                if f in loose:
+                    eng.emit(q, "lemma", f"C13/frame/{op}/{lab}/{f}", z3.BoolVal(False),
+                             meta={"clause": f"observable field {f} is only loosely specified by the contract"})
+                    continue
+                addr = S.skolem_addr(f)
+                a, b = o.post.read(f, *addr), S.read(f, *addr)
+                eng.emit(q, "lemma", f"C13/frame/{op}/{lab}/{f}", T.eq(a, b),
+                         meta={"clause": f"observable field {f} unchanged ({o.exc or 'normal'} exit)"})
+    return fn
+
+
+for _op in C13_READONLY_CONTRACTS:
+    REG.lemma(f"C13/readonly-contract/{_op}", props=("C13",))(_readonly(_op))
